@@ -23,13 +23,13 @@ CIRCUITS = {   # builder takes ONE VALUE PER OCCURRENCE of a trainable parameter
     "RY.CNOT.RZ.RX": (lambda p: [qp.RY(p[0], 0), qp.CNOT([0, 1]), qp.RZ(p[1], 1), qp.RX(p[2], 1)], [0, 1, 2]),
     "H.CRX.RY": (lambda p: [qp.Hadamard(0), qp.CRX(p[0], [0, 1]), qp.RY(p[1], 0)], [0, 1]),
     "RY.CRZ.CRY": (lambda p: [qp.RY(p[0], 0), qp.Hadamard(1), qp.CRZ(p[1], [0, 1]), qp.CRY(p[2], [1, 0])], [0, 1, 2]),
-    "Rot.CNOT": (lambda p: [qp.Rot(p[0], p[1], p[2], 0), qp.CNOT([0, 1]), qp.Hadamard(1)], [0, 1, 2]),
+    "Rot.CNOT": (lambda p: [qp.Hadamard(0), qp.RY(0.4, 0), qp.Rot(p[0], p[1], p[2], 0), qp.CNOT([0, 1]), qp.Hadamard(1)], [0, 1, 2]),
     "IsingXX.PhaseShift": (lambda p: [qp.Hadamard(0), qp.IsingXX(p[0], [0, 1]), qp.PhaseShift(p[1], 1), qp.RX(p[2], 0)], [0, 1, 2]),
     "four rotations": (lambda p: [qp.RX(p[0], 0), qp.CNOT([0, 1]), qp.RY(p[1], 1), qp.RZ(p[2], 0), qp.RX(p[3], 0)], [0, 0, 1, 0]),
     "ControlledPhaseShift.U3": (lambda p: [qp.Hadamard(0), qp.Hadamard(1), qp.ControlledPhaseShift(p[0], [0, 1]), qp.U3(p[1], p[2], p[3], 1)], [0, 1, 2, 0]),
     "SingleExcitation.IsingZZ": (lambda p: [qp.PauliX(0), qp.SingleExcitation(p[0], [0, 1]), qp.IsingZZ(p[1], [1, 2]), qp.RY(p[2], 2)], [0, 1, 2]),
     "3 wires Toffoli": (lambda p: [qp.RY(p[0], 0), qp.RY(p[1], 1), qp.Toffoli([0, 1, 2]), qp.RX(p[2], 2), qp.CNOT([2, 0])], [0, 1, 2]),
-    "CRot": (lambda p: [qp.Hadamard(0), qp.CRot(p[0], p[1], p[2], [0, 1])], [0, 1, 2]),
+    "CRot": (lambda p: [qp.Hadamard(0), qp.Hadamard(1), qp.RY(0.4, 1), qp.CRot(p[0], p[1], p[2], [0, 1])], [0, 1, 2]),
     "non-trainable Rot first": (lambda p: [qp.Rot(0.3, 0.7, -0.4, 0), qp.RX(p[0], 0), qp.CNOT([0, 1]), qp.RY(p[1], 1)], [0, 1]),
 }
 MEAS = {
@@ -129,7 +129,7 @@ def _placeholder_positions(ops, symmap):
     pos, k = [], 0
     for op in ops:
         for d in op.data:
-            if not (op.name == "Rot" and len(pos) == 0 and k < 3 and float(np.asarray(d)) in (0.3, 0.7, -0.4)):
+            if not ((op.name == "Rot" and len(pos) == 0 and k < 3 and float(np.asarray(d)) in (0.3, 0.7, -0.4)) or (op.name == "RY" and float(np.asarray(d)) == 0.4)):
                 pos.append(k)
             k += 1
     return pos
